@@ -21,6 +21,7 @@ OPTSETS = [
     ("quoted", ["-fincludes-quoted", "-fcompound-names"]),
     ("default", []),
     ("noper-nooer", ["-no-gen-PER", "-no-gen-OER"]),
+    ("noconstr-plain", ["-fno-constraints", "-no-gen-PER", "-no-gen-OER", "-fcompound-names"]),   # outside the F84 region
 ]
 
 PROPOSED_FINDINGS = [
@@ -369,7 +370,7 @@ def run(ctx):
     drv = naming_driver()
     ctx.lean()
     ctx.cov["rule"] = ("K: real asn1c_make_identifier/construct_base_name vs model on boundary-exhaustive + random names; "
-                       "P: generated valid modules (nasty identifier pool) x 9 option sets and single-fault modules x 2 option sets: "
+                       "P: generated valid modules (nasty identifier pool) x 10 option sets and single-fault modules x 2 option sets: "
                        "asn1c exit kind, gcc -std=c99 on every emitted .c, link of exactly the emitted set, g++ -std=gnu++14 on headers, "
                        "WfDescr (Lean) on every descriptor; distinct = distinct (module, options) runs and identifier cases")
     # ---------------- K (a)
@@ -386,7 +387,7 @@ def run(ctx):
 
     # ---------------- modules
     jobs = []
-    nvalid = 8 if ctx.quick else 60
+    nvalid = 16 if ctx.quick else 80
     ntypes = 7 if ctx.quick else 10
     valid_mods = []
     for i in range(nvalid):
@@ -395,12 +396,11 @@ def run(ctx):
         valid_mods.append(m)
         text = genmod.module_text(m)
         names = [n for n, _ in m["types"]]
-        sets = OPTSETS if (ctx.quick is False or True) else OPTSETS
-        for on, opts in sets:
+        for on, opts in OPTSETS:
             jobs.append((len(jobs), ("valid", i), text, names, on, opts, True))
     # single-fault modules
     kinds = inject_errors(ctx.rng, "", "*keys")
-    reps = 1 if ctx.quick else 4
+    reps = 2 if ctx.quick else 8
     for rep in range(reps):
         for kind in kinds:
             td = ctx.rng.choice([None, "AUTOMATIC", "IMPLICIT", "EXPLICIT"])
